@@ -3,8 +3,8 @@
 # usage: kx.sh <cfg: debug|release> <harness>... ; env KX_FILTER=cat to see all
 cfg=$1; shift
 S=/tmp/kx-$$; mkdir -p $S; trap "rm -rf $S" EXIT; rsync -a --exclude target --exclude .git /repo/ $S/repo/; mkdir -p $S/kani
-cp /verif/kani/*.rs $S/kani/; echo 'pub(crate) const THOROUGH: bool = false;' > $S/kani/tier.rs
-for f in /verif/kani/*.rs; do
+cp ${KX_KANI_DIR:-/verif/kani}/*.rs $S/kani/; echo 'pub(crate) const THOROUGH: bool = false;' > $S/kani/tier.rs
+for f in ${KX_KANI_DIR:-/verif/kani}/*.rs; do
   inj=$(grep -m1 '^// @inject' $f | awk '{print $3}'); mod=$(grep -m1 '^// @inject' $f | awk '{print $5}'); [ -z "$mod" ] && mod=verif_kani
   [ -n "$inj" ] && echo "#[cfg(kani)] #[path = \"$S/kani/$(basename $f)\"] pub(crate) mod $mod;" >> $S/repo/$inj
   grep '^// @append' $f | while read -r _ _ tgt rest; do echo "#[cfg(kani)] $rest" >> $S/repo/${tgt%:}; done
